@@ -41,12 +41,19 @@ func decodeNoResponseOption(v uint32) []codes.Code {
 // IsNoResponseCode validates response code against NoResponse option from request.
 // https://www.rfc-editor.org/rfc/rfc7967.txt
 func IsNoResponseCode(code codes.Code, noRespValue uint32) error {
-	suppressedCodes := decodeNoResponseOption(noRespValue)
-
-	for _, suppressedCode := range suppressedCodes {
-		if suppressedCode == code {
-			return ErrMessageNotInterested
-		}
+	// RFC 7967 section 2.1: the option suppresses whole response classes (2.xx, 4.xx, 5.xx),
+	// not only the codes known to this library.
+	var classBit uint32
+	switch code >> 5 {
+	case 2:
+		classBit = 2
+	case 4:
+		classBit = 8
+	case 5:
+		classBit = 16
+	}
+	if noRespValue&classBit != 0 {
+		return ErrMessageNotInterested
 	}
 	return nil
 }
